@@ -161,6 +161,7 @@ class WrappedField:
         return self.is_container and all(
             behaves_like_a_built_in_class(field_type)
             for field_type in get_args(self.resolved_type)
+            if field_type is not Ellipsis  # the marker of a variadic tuple, Tuple[int, ...]
         )
 
     @cached_property
